@@ -79,7 +79,9 @@ def targeted_corpus(macro, tier, seed, isa):
             ws = mod.witnesses(tier, seed, isa)
         ws = [w for w in ws if sel(w) and not (w.params or {}).get('or_group') and not in_open_finding_family(w)]
         cap = 160 if tier == 'quick' else 1200
-        W += ws[::max(1, len(ws) // cap)]
+        keep = [w for w in ws if (w.params or {}).get('wide_strided')]      # families built for exactly these macro arms are never subsampled away
+        rest = [w for w in ws if not (w.params or {}).get('wide_strided')]
+        W += rest[::max(1, len(rest) // cap)] + keep[::1 if tier != 'quick' else 2]
     return group_sort(W)
 
 
